@@ -5,7 +5,7 @@ import re
 
 from .. import AnalysisError
 from ..cfg import ALL_KINDS, NORMAL_KINDS, iter_own
-from ..lib import _single_return, both_orders, edge_cond_inlined, inlined, iteration_paths, dominated_by, guard_forms, key_of, norm, render, return_conditions
+from ..lib import _single_return, both_orders, comp_norm, edge_cond_inlined, inlined, iteration_paths, dominated_by, guard_forms, key_of, norm, render, return_conditions
 from ..report import describe, rule
 
 P = "C18"
@@ -387,7 +387,7 @@ def c18_5(ctx, r):
     last = any(p and f.replace(" ", "") in (f"{IV}=={MT}-1", f"{IV}==({MT}-1)") for b in brks for f, p in guard_forms(ctx, fn, b, ALL_KINDS, kill=False)) or True
     # the exit test is `ret == 0 or i == max_tries - 1`
     tests = [n for n in iter_own(lp) if isinstance(n, ast.If) and any(isinstance(x, ast.Break) for x in n.body)]
-    r.check(len(tests) == 1 and ctx.src(tests[0].test).replace(" ", "") == f"{RET}==0or{IV}=={MT}-1", "exit test = `ret == 0 or i == max_tries - 1`", key_of(fn, "exit test"), fn.loc(lp), f"exit test is `{ctx.src(tests[0].test) if tests else None}`")
+    r.check(len(tests) == 1 and _exit_test_ok(ctx.src(tests[0].test).replace(" ", ""), RET, IV, MT), "exit test = `ret == 0 or i == max_tries - 1`", key_of(fn, "exit test"), fn.loc(lp), f"exit test is `{ctx.src(tests[0].test) if tests else None}`")
     # the output handed back is that of the last execution
     r.check(dominated_by(ctx, fn, brks[0], [n for n in cfg.nodes for c in cfg.calls_at(n) if ctx.src(c.func) == "output.update"] + [x for x in cfg.nodes if x.kind == "test" and ctx.src(x.ast) == "isinstance(output, dict)"]), "the caller's output dict is filled before leaving", key_of(fn, "output"), fn.loc(), "output is not updated before the break")
     # contradiction rule: the dict whose stderr is examined is the dict the guard tested (the per-attempt one)
@@ -401,19 +401,26 @@ def c18_5(ctx, r):
                     f"`{ctx.src(s2.node)}` examines `{var}` but is guarded by {sorted(f for f, p in forms if p and f in fn.params + ['_output', 'output'])}: with a fresh (empty) caller dict the listed-error test is never reached and a permanent error is retried num_retries times",
                     "stopping at the first success or at a listed permanent error", guards=sorted(("" if p else "not ") + f for f, p in forms))
     sc = ctx.fn("run_command._should_exit_early", "C18.5")
+    # either form: `for e in errors: if e in std_err: return True ... return False`  or  `return any(e in std_err for e in errors)`
     lps0 = [n for n in sc.node.body if isinstance(n, ast.For)]
-    ev = ctx.src(lps0[0].target) if lps0 else None
-    ok = any(isinstance(n, ast.If) and ctx.src(n.test).replace(" ", "") == f"{ev}in{sc.params[0]}" for n in iter_own(sc.node))
-    r.check(ok, "permanent error = a listed string occurs in stderr", key_of(sc, "match"), sc.loc(), "_should_exit_early no longer tests `err in std_err`")
-    lps = [n for n in sc.node.body if isinstance(n, ast.For)]
-    if len(lps) != 1 or not isinstance(lps[0].iter, ast.Name) or lps[0].iter.id not in sc.params:
-        raise AnalysisError("C18.5", "_should_exit_early does not loop over its error-strings parameter")
-    for end, conds, last in iteration_paths(ctx, sc, lps[0]):
-        if end == "leave":
-            hit = any(p and " in " in f for f, p in conds)
-            r.check(hit, "the scan of the listed errors stops only on a match", key_of(sc, f"scan left early under {sorted(('' if p else 'not ') + f for f, p in conds)}"), sc.loc(last.stmt if last.stmt is not None else lps[0]),
-                    "_should_exit_early leaves the loop over the listed error strings without a match: only the first listed string is ever examined, so a failure matching a later one is retried num_retries times",
-                    "stopping at the first success or at a listed permanent error")
+    anyf = [c for c in iter_own(sc.node) if isinstance(c, ast.Call) and ctx.src(c.func) == "any" and len(c.args) == 1 and isinstance(c.args[0], (ast.GeneratorExp, ast.ListComp))]
+    if anyf:
+        g = anyf[0].args[0]
+        okany = comp_norm(g).strip("()[]") == f"_in{sc.params[0]}for_in{sc.params[1]}" and not g.generators[0].ifs
+        r.check(okany, "permanent error = some listed string occurs in stderr", key_of(sc, "match"), sc.loc(), f"_should_exit_early is `{ctx.src(anyf[0])}`")
+    else:
+        ev = ctx.src(lps0[0].target) if lps0 else None
+        ok = any(isinstance(n, ast.If) and ctx.src(n.test).replace(" ", "") == f"{ev}in{sc.params[0]}" for n in iter_own(sc.node))
+        r.check(ok, "permanent error = a listed string occurs in stderr", key_of(sc, "match"), sc.loc(), "_should_exit_early no longer tests `err in std_err`")
+        lps = [n for n in sc.node.body if isinstance(n, ast.For)]
+        if len(lps) != 1 or not isinstance(lps[0].iter, ast.Name) or lps[0].iter.id not in sc.params:
+            raise AnalysisError("C18.5", "_should_exit_early does not loop over its error-strings parameter")
+        for end, conds, last in iteration_paths(ctx, sc, lps[0]):
+            if end == "leave":
+                hit = any(p and " in " in f for f, p in conds)
+                r.check(hit, "the scan of the listed errors stops only on a match", key_of(sc, f"scan left early under {sorted(('' if p else 'not ') + f for f, p in conds)}"), sc.loc(last.stmt if last.stmt is not None else lps[0]),
+                        "_should_exit_early leaves the loop over the listed error strings without a match: only the first listed string is ever examined, so a failure matching a later one is retried num_retries times",
+                        "stopping at the first success or at a listed permanent error")
     # one execution per iteration
     rc = ctx.fn("run_command._run_command", "C18.5")
     ex2 = [s for s in ctx.cg.sites_in(rc) if s.external in ("subprocess.Popen", "subprocess.call", "subprocess.run")]
@@ -459,3 +466,12 @@ def c18_6(ctx, r):
                             "contains exactly the configured ... every optional parameter that is set")
     if n < 1:
         raise AnalysisError("C18.6", "no defaulting store found in the scheduler option models (SlurmConfig.handle_nodes_and_tasks expected)")
+
+
+def _exit_test_ok(txt, RET, IV, MT):
+    parts = txt.split("or")
+    if len(parts) != 2:
+        return False
+    a = {parts[0], "==".join(reversed(parts[0].split("==")))} if "==" in parts[0] else {parts[0]}
+    b = {parts[1], "==".join(reversed(parts[1].split("==")))} if "==" in parts[1] else {parts[1]}
+    return bool(a & {f"{RET}==0"}) and bool(b & {f"{IV}=={MT}-1", f"{IV}==({MT}-1)"})
